@@ -17,7 +17,7 @@ import traceback
 ROOT = os.path.dirname(os.path.dirname(os.path.abspath(__file__)))
 sys.path.insert(0, ROOT)
 
-from h2vc import spec, prove, deps_model, extract  # noqa
+from h2vc import spec, prove, deps_model, extract, hdrmodel  # noqa
 
 ASSUMED_SEMANTICS = [
     'Python ints are mathematical integers (true in CPython)',
